@@ -82,4 +82,25 @@ def detailCells (e : EncVar) (pus : List PU) : List Rat := pus.map (unitLast e.p
 def detailRows (units : List PU) (pus : List PU) (s : State) : List (VarId × Rat × List Rat) :=
   (solutionVariables units s).map fun e => (e.id, e.value, detailCells e pus)
 
+/-! ## The management-actions file of a solution (`encoding/csv.ManagementActionMarshaler`)
+
+One row per planning unit of the solution, one 0/1 cell per action type the model offers (`Solution.ActionsAsStrings()`:
+the keys of `Solution.ManagementActions`, sorted): 1 iff `Solution.ActiveManagementActions[unit]` holds that type, which
+`SolutionBuilder.addPlanningUnitManagementActionMaps` fills from the model's actions that are active. -/
+
+/-- does planning unit `p` have an ACTIVE action of type `t`? (`acts` and `flags` are aligned) -/
+def activeIn (acts : List Action) (flags : List Bool) (p : PU) (t : ActType) : Bool :=
+  (acts.zip flags).any fun ab => ab.2 && decide (ab.1.pu = p) && decide (ab.1.typ = t)
+
+/-- the action types in the order of their Go names -/
+def actionTypes : List ActType := [.gully, .hillslope, .riparian, .wetland]
+
+/-- the column headings after the planning-unit column: the types some action of the model has, sorted -/
+def typesPresent (acts : List Action) : List ActType :=
+  actionTypes.filter fun t => acts.any fun a => decide (a.typ = t)
+
+/-- the numeric content of `…-ManagementActions.csv`: per planning unit of the solution its row of 0/1 cells -/
+def actionMatrix (acts : List Action) (flags : List Bool) (pus : List PU) : List (PU × List Bool) :=
+  pus.map fun p => (p, (typesPresent acts).map (activeIn acts flags p))
+
 end Crem.Catchment
